@@ -237,7 +237,13 @@ impl System for Sys {
 #[derive(Clone, Debug, serde::Serialize, serde::Deserialize, PartialEq, Eq, Hash)]
 pub enum CEv {
     Listen(Vec<Frame>),
-    Send { rxc1: Vec<Frame>, rxc2: Vec<Frame>, rx2: Option<Frame> },
+    Send {
+        rxc1: Vec<Frame>,
+        rxc2: Vec<Frame>,
+        #[serde(default)]
+        rx1: Option<Frame>,
+        rx2: Option<Frame>,
+    },
 }
 
 pub struct SysC {
@@ -251,7 +257,7 @@ impl SysC {
     pub fn new(cfg: &DevCfg) -> SysC {
         let core = ACore::new(cfg, true);
         let fr = frames(&cfg.region);
-        let mut alphabet = vec![CEv::Send { rxc1: vec![], rxc2: vec![], rx2: None }];
+        let mut alphabet = vec![CEv::Send { rxc1: vec![], rxc2: vec![], rx1: None, rx2: None }];
         for f in &fr {
             alphabet.push(CEv::Listen(vec![f.clone()]));
         }
@@ -259,11 +265,20 @@ impl SysC {
         alphabet.push(CEv::Listen(vec![fr[10].clone(), fr[0].clone()]));
         alphabet.push(CEv::Listen(vec![fr[0].clone(), Frame::ReplayAccepted(0)]));
         for f in [&fr[0], &fr[2], &fr[8], &fr[10], &fr[7]] {
-            alphabet.push(CEv::Send { rxc1: vec![f.clone()], rxc2: vec![], rx2: None });
-            alphabet.push(CEv::Send { rxc1: vec![], rxc2: vec![f.clone()], rx2: None });
+            alphabet.push(CEv::Send { rxc1: vec![f.clone()], rxc2: vec![], rx1: None, rx2: None });
+            alphabet.push(CEv::Send { rxc1: vec![], rxc2: vec![f.clone()], rx1: None, rx2: None });
         }
         // Class C reception before RX1, then a Class A downlink in RX2 of the same transaction
-        alphabet.push(CEv::Send { rxc1: vec![fr[0].clone()], rxc2: vec![], rx2: Some(fr[2].clone()) });
+        alphabet.push(CEv::Send { rxc1: vec![fr[0].clone()], rxc2: vec![], rx1: None, rx2: Some(fr[2].clone()) });
+        if cfg.region == "EU868" {
+            // size limits per window: frames at, one above and far above the RX2 limit (DR0, M = 59), in RX1
+            // and in RX2 — with a faster uplink rate the two windows have different limits
+            for len in [51usize, 52, 100] {
+                let f = Frame::Down { fcnt: Fcnt::Rel(1), confirmed: false, ack: false, fopts: vec![], port: Some(1), payload: payload(len), tamper: Tamper::None };
+                alphabet.push(CEv::Send { rxc1: vec![], rxc2: vec![], rx1: Some(f.clone()), rx2: None });
+                alphabet.push(CEv::Send { rxc1: vec![], rxc2: vec![], rx1: None, rx2: Some(f) });
+            }
+        }
         SysC { core, alphabet, dev_accepted: HashSet::new(), last_outcome: String::new() }
     }
 
@@ -364,7 +379,7 @@ impl System for SysC {
     fn step(&mut self, ev: &CEv) -> Vec<V> {
         let (aev, single) = match ev {
             CEv::Listen(f) => (AEv::Listen { frames: f.clone(), fault_at: None }, f.len() == 1),
-            CEv::Send { rxc1, rxc2, rx2 } => (AEv::Send { confirmed: false, port: 1, len: 1, script: Script { rx1: None, rx2: rx2.clone(), rxc1: rxc1.clone(), rxc2: rxc2.clone(), fault_at: None } }, false),
+            CEv::Send { rxc1, rxc2, rx1, rx2 } => (AEv::Send { confirmed: false, port: 1, len: 1, script: Script { rx1: rx1.clone(), rx2: rx2.clone(), rxc1: rxc1.clone(), rxc2: rxc2.clone(), fault_at: None } }, false),
         };
         match self.core.apply(&aev) {
             Some(st) => self.check(&st, single),
@@ -475,6 +490,13 @@ fn cfgs(th: bool) -> Vec<DevCfg> {
             v.push(c);
         }
     }
+    for fd in [None, Some(Some(0xFFFE))] {
+        // a fast uplink rate: RX1 (DR5, M = 250) and RX2 (DR0, M = 59) then have different size limits
+        let mut c = DevCfg::abp("EU868");
+        c.fcnt_down = fd;
+        c.dr = Some(5);
+        v.push(c);
+    }
     v
 }
 
@@ -502,7 +524,7 @@ pub fn run(tier: Tier, replay: Option<&str>) {
     let ctx = Ctx::new("C05", tier);
     let th = tier.thorough();
     let (n_last, arith_accepts) = arithmetic(&ctx, th);
-    let depth = if th { 4 } else { 3 };
+    let depth = if crate::ctx::deep() { 6 } else if th { 4 } else { 3 };
     let mut states = 0u64;
     let mut transitions = 0u64;
     let mut outcomes: std::collections::BTreeMap<String, u64> = Default::default();
@@ -519,7 +541,7 @@ pub fn run(tier: Tier, replay: Option<&str>) {
         }
     }
     // Class C receptions on the async front-end
-    let depth_c = if th { 4 } else { 3 };
+    let depth_c = if crate::ctx::deep() { 6 } else if th { 4 } else { 3 };
     for cfg in &cfgs {
         let cj = json!({"class_c_cfg": serde_json::to_value(cfg).unwrap()});
         let st = explore::bfs(&ctx, &cj, &|| SysC::new(cfg), depth_c, 3_000_000);
